@@ -7,6 +7,7 @@
 #
 
 from collections import defaultdict
+from functools import partial
 import gzip
 
 """
@@ -40,7 +41,9 @@ def parse_contents(location, has_header=True):
     if location.endswith('.gz'):
         opener, mode = gzip.GzipFile, 'rb'
     else:
-        opener, mode = open, 'r'
+        # a Contents file is UTF-8 text, compressed or not: do not read the
+        # plain file in the encoding of the current locale
+        opener, mode = partial(open, encoding='utf-8'), 'r'
 
     packages_by_path = defaultdict(list)
     paths_by_package = defaultdict(list)
